@@ -432,7 +432,7 @@ func (w *Worktree) doAdd(path string, ignorePattern []gitignore.Pattern, skipSta
 		return h, nil
 	}
 
-	return h, w.r.Storer.SetIndex(idx)
+	return h, w.setIndex(idx)
 }
 
 // AddGlob adds all paths, matching pattern, to the index. If pattern matches a
@@ -495,7 +495,7 @@ func (w *Worktree) AddGlob(pattern string) error {
 	}
 
 	if saveIndex {
-		return w.r.Storer.SetIndex(idx)
+		return w.setIndex(idx)
 	}
 
 	return nil
@@ -668,7 +668,7 @@ func (w *Worktree) Remove(path string) (plumbing.Hash, error) {
 		return h, err
 	}
 
-	return h, w.r.Storer.SetIndex(idx)
+	return h, w.setIndex(idx)
 }
 
 func (w *Worktree) doRemoveDirectory(idx *index.Index, directory string) (removed bool, err error) {
@@ -775,7 +775,7 @@ func (w *Worktree) RemoveGlob(pattern string) error {
 		}
 	}
 
-	return w.r.Storer.SetIndex(idx)
+	return w.setIndex(idx)
 }
 
 // Move moves or rename a file in the worktree and the index, directories are
@@ -821,5 +821,5 @@ func (w *Worktree) Move(from, to string) (plumbing.Hash, error) {
 	*dst = *moved
 	dst.Name = name
 
-	return hash, w.r.Storer.SetIndex(idx)
+	return hash, w.setIndex(idx)
 }
